@@ -50,6 +50,25 @@ def make_seq_file(ck, rng, kind=None, equal=False, n=None, long=False, L=None):
     return kind, seqs
 
 
+_BIG = {}
+
+
+def big_file(ck):
+    with ck.lock:
+        if "p" not in _BIG:
+            p = os.path.join(ck.scratch, "big_input.fa")
+            rng = ck.rng.__class__(ck.seed + 99)
+            lines = ["".join(rng.choice("ACGT") for _ in range(60)) + "\n" for _ in range(50)]
+            with open(p, "w") as fh:
+                # many short records (a few huge records make the line-by-line reader take minutes, which is not this property's business)
+                for r_ in range(rng.choice([72000, 90000, 140000])):
+                    fh.write(">b%d d\n" % r_)
+                    for k_ in range(4):
+                        fh.write(lines[(r_ + k_) % 50])
+            _BIG["p"] = p
+        return _BIG["p"]
+
+
 def gen_job(ck, rng, shape=None):
     if shape is not None and rng.random() < 0.75:
         # "same shape" histories: successive calls work on sequences of one common length and kind (batches of reads of one amplicon / one domain),
@@ -77,6 +96,8 @@ def gen_job(ck, rng, shape=None):
                    {"kind": kind, "n": len(seqs), "L": L, "threads": nt})
     k = rng.choice(["arr", "arr_equal", "rrwf", "rrwf", "rrwf_multi", "cmp", "rejected", "churn", "churn", "reread", "reread", "big_threads", "failed_read", "one_record",
                     "failed_calls_between", "failed_calls_between"])
+    if rng.random() < 0.02:
+        k = "big_file"
     if k == "failed_calls_between":
         # read A; [read of a file of the other kind: refused]; read C; [run with a type of the other kind: rejected]; [run with an infinite penalty:
         # rejected]; run; dump; write; free  -- the bracketed calls fail and must not influence the calls after them
@@ -106,6 +127,9 @@ def gen_job(ck, rng, shape=None):
         lines2 = [lines[i] for i in keep]
         noise2 = [j for j, i in enumerate(keep) if i in noise]
         return Job(k, lines2, [("{O0}", "fasta")], {"kind": kind, "n": len(recs), "failing_calls": which, "threads": nt}, noise=noise2)
+    if k == "big_file":
+        # an input of 17..33 MiB is read and freed (no alignment): readers may treat large regular files differently
+        return Job(k, ["read {S} %s" % big_file(ck), "free {S}"], [], {"bytes": os.path.getsize(big_file(ck))})
     if k == "failed_read":
         g = ck.tmp(".txt")
         common.write_bytes(g, rng.choice(["hello world\nthis is not an alignment\n", "", "\n\n\n", "CLUSTAL W multiple sequence alignment\n\n"]))
@@ -273,6 +297,10 @@ def run_history(ck, paths, hidx, env, tier):
     live = per_job[-1][0]
     ck.count("histories")
     ck.count("jobs", len(jobs))
+    if live.get("file_maps_extra", 0) > 0:
+        ck.violation("file-mappings-remain-after-free", "%d file-backed mapping(s) more than at process start remain after every object was freed (history of %d jobs: %s)" % (
+            live["file_maps_extra"], len(jobs), sorted(set(j.kind for j in jobs))), ctx)
+    ck.count("histories_with_mapping_count_checked_at_quiescence")
     ck.cmax("max_simultaneously_live_msa_jobs", max_alive)
     if paths["variant"] in ("rel", "noomp", "clangomp"):
         ck.count("histories_with_allocation_accounting")
@@ -337,7 +365,7 @@ def run(ck, tier):
                "equal-length sequences), read(1-2 files)->run->dump->write(fmt)->free, write->free->re-read, compare of two runs, rejected calls (type of the other kind, missing / unrecognisable / one-record input), "
                ">= 100 sequences with 8-16 threads, heap-churn jobs that leave patterned garbage in freed blocks, every third history made of same-shape calls (one common sequence length and kind, 2..5 and 100..130 sequences alternating, call after call) so that freed objects are reused at once by the next call (input arrays pre-loaded by the driver), a third of the -O2 histories under a hostile allocator that hands freed blocks back at random with their old contents; thread counts 64 -> 1 -> 8 and DNA <-> protein change from job to "
                "job; -O2 build with allocation accounting (mostly without MALLOC_PERTURB_, which would erase the stale heap contents a history leaves behind) and the ASan build. Each job is replayed alone in a fresh process; digests must "
-               "be equal; live blocks after the last free must be 0. Distinct = (history, job).")
+               "be equal; live blocks after the last free must be 0 and the process must hold no more file-backed mappings than at its start (2 % of the jobs read and free a 17..33 MiB file). Distinct = (history, job).")
     ck.assumptions = ["MSF header line (time stamp, file base name) is masked before comparing written files", "allocations inside libgomp are not counted (the OpenMP runtime's own pool)"]
 
 
